@@ -324,7 +324,8 @@ func (self *BinaryConv) unmarshalMap(ctx context.Context, resp http.ResponseSett
 		return wrapError(meta.ErrRead, "parse MapKey Tag error", err)
 	}
 	mapKeyDesc := fd.Key()
-	isIntKey := (mapKeyDesc.Type() == proto.INT32) || (mapKeyDesc.Type() == proto.INT64) || (mapKeyDesc.Type() == proto.UINT32) || (mapKeyDesc.Type() == proto.UINT64)
+	// a JSON object key is a string: every key kind but string (which is quoted by its encoder) needs quotes
+	isIntKey := mapKeyDesc.Type() != proto.STRING
 	if isIntKey {
 		*out = append(*out, '"')
 	}
